@@ -61,6 +61,9 @@ var generators = map[string]func(rec *lib.Rec, r *lib.Rng, thorough bool){
 	"C13": genC13,
 	"C10": genC10,
 	"C06": genC06,
+	"C07": genC07,
+	"C08": genC08,
+	"C09": genC09,
 	"C11": genC11,
 	"C12": genC12,
 	"C04": func(rec *lib.Rec, r *lib.Rng, th bool) { genBuild(rec, r, th, "C04") },
